@@ -326,14 +326,14 @@ fn neg(c: ChronyFloat) -> ChronyFloat {
 }
 
 // ------------------------------------------------------------------------------------------ replay of E2E.tla behaviours
-fn replay_one(beh: &Value, tag: &str, orders: (&str, &str)) -> (usize, usize, Vec<Value>, Option<String>) {
+fn replay_one(beh: &Value, tag: &str, orders: (&str, &str), stop_on: &[String]) -> (usize, usize, Vec<Value>, Option<String>) {
     let steps = beh["steps"].as_array().unwrap();
     let mut p = Pipeline::new(tag);
     let mut viol: Vec<Value> = vec![];
     let mut drift: Option<String> = None;
     let mut comps = 0usize;
     let mut add = |viol: &mut Vec<Value>, prop: &str, sig: &str, what: String| {
-        if viol.len() < 5 {
+        if viol.len() < 12 {
             viol.push(json!({"property": prop, "signature": sig, "what": what}));
         }
     };
@@ -445,7 +445,7 @@ fn replay_one(beh: &Value, tag: &str, orders: (&str, &str)) -> (usize, usize, Ve
                         }
                     }
                 }
-                if !viol.is_empty() {
+                if stop_now(&viol, stop_on) {
                     break;
                 }
             }
@@ -454,11 +454,16 @@ fn replay_one(beh: &Value, tag: &str, orders: (&str, &str)) -> (usize, usize, Ve
                 break;
             }
         }
-        if !viol.is_empty() {
+        if stop_now(&viol, stop_on) {
             break;
         }
     }
     (steps.len() - 1, comps, viol, drift)
+}
+
+/// stop at the first finding of a property the caller asked about (--stop-on); the others are data
+fn stop_now(viol: &[Value], stop_on: &[String]) -> bool {
+    viol.len() >= 12 || viol.iter().any(|v| stop_on.is_empty() || stop_on.iter().any(|p| v["property"] == p.as_str()))
 }
 
 fn replay_cmd(args: &[String]) -> Value {
@@ -477,7 +482,7 @@ fn replay_cmd(args: &[String]) -> Value {
         }
         let beh: Value = serde_json::from_str(&line).unwrap();
         let n = beh["n"].as_u64().unwrap_or(nb as u64);
-        let (s, c, v, d) = replay_one(&beh, &format!("e2e{n}"), (&po, &co));
+        let (s, c, v, d) = replay_one(&beh, &format!("e2e{n}"), (&po, &co), &stop_on);
         steps += s;
         comps += c;
         if !v.is_empty() {
